@@ -470,8 +470,12 @@ func embeddedNearMissFile(r *core.Rng) *fileWL {
 		return nil
 	}
 	outer.Ops = append(outer.Ops, core.AddOp(first2))
+	prof := core.Benign
+	if r.Chance(1, 2) {
+		prof.MaxStr = 3000 // the page that holds the embedded file grows beyond 4 KiB
+	}
 	for i, n := 0, r.Range(1, page-1); i < n; i++ {
-		outer.Ops = append(outer.Ops, core.AddOp(core.GenRec(r, sh.Type, core.Benign)))
+		outer.Ops = append(outer.Ops, core.AddOp(core.GenRec(r, sh.Type, prof)))
 	}
 	outer.Ops = append(outer.Ops, core.WriteOp())
 	if r.Chance(1, 2) {
